@@ -449,12 +449,28 @@ var c12Alphabet = []byte{
 func c12GenRaw(t *rapid.T) []byte {
 	n := rapid.IntRange(0, vlib.Scale(200, 2000)).Draw(t, "rawlen")
 	out := make([]byte, 0, n)
+	// token mode: the stream is mostly built from package-bearing opcodes with
+	// small (often inconsistent) lengths, constants and names - hostile nesting
+	tokens := rapid.Bool().Draw(t, "tokenmode")
 	for len(out) < n {
-		switch rapid.IntRange(0, 9).Draw(t, "rawk") {
-		case 0:
+		k := rapid.IntRange(0, 9).Draw(t, "rawk")
+		switch {
+		case k == 0:
 			out = append(out, rapid.Byte().Draw(t, "any"))
-		case 1:
+		case k == 1:
 			out = append(out, rapid.SampledFrom([]string{"DEV0", "_SB_", "MTH0", "AAAA", "_HID"}).Draw(t, "nm")...)
+		case tokens && k <= 5:
+			// package opener + PkgLength lead (small lengths dominate)
+			op := rapid.SampledFrom([][]byte{{0x11}, {0x11}, {0x12}, {0x13}, {0x10}, {0x14}, {0xa0}, {0xa1}, {0xa2}, {0x5b, 0x81}, {0x5b, 0x82}, {0x5b, 0x86}, {0x5b, 0x87}, {0x5b, 0x83}}).Draw(t, "pkgop")
+			out = append(out, op...)
+			if rapid.IntRange(0, 7).Draw(t, "bigpkg") == 0 {
+				out = append(out, rapid.SampledFrom([]byte{0x3f, 0x40, 0x4f, 0x80, 0xc0, 0xff}).Draw(t, "biglead"))
+			} else {
+				out = append(out, byte(rapid.IntRange(0, 16).Draw(t, "smalllen")))
+			}
+		case tokens && k <= 7:
+			c := rapid.SampledFrom([][]byte{{0x0a, 0x00}, {0x0a, 0x05}, {0x0a, 0xff}, {0x0b, 0x19, 0x8e}, {0x0c, 0, 0, 0, 0}, {0x00}, {0x01}, {0xff}, {0x0d, 'x', 0}, {0x02}, {0x01, 0x05, 0x0b}}).Draw(t, "const")
+			out = append(out, c...)
 		default:
 			out = append(out, rapid.SampledFrom(c12Alphabet).Draw(t, "alpha"))
 		}
@@ -489,7 +505,7 @@ func c12Mutate(t *rapid.T, body []byte, donor []byte) ([]byte, []string) {
 	var kinds []string
 	n := rapid.IntRange(1, 4).Draw(t, "nmut")
 	for i := 0; i < n && len(b) > 0; i++ {
-		k := rapid.SampledFrom([]string{"truncate", "flip", "byte", "pkglen", "selfname", "splice", "swapop", "dup", "insert"}).Draw(t, "mutk")
+		k := rapid.SampledFrom([]string{"truncate", "flip", "byte", "pkglen", "pkglen", "selfname", "splice", "swapop", "dup", "insert", "nest"}).Draw(t, "mutk")
 		pos := rapid.IntRange(0, len(b)-1).Draw(t, "pos")
 		switch k {
 		case "truncate":
@@ -538,6 +554,11 @@ func c12Mutate(t *rapid.T, body []byte, donor []byte) ([]byte, []string) {
 			b = append(b[:pos+l], append(append([]byte(nil), b[pos:pos+l]...), b[pos+l:]...)...)
 		case "insert":
 			b = append(b[:pos], append([]byte{rapid.SampledFrom(c12Alphabet).Draw(t, "ins")}, b[pos:]...)...)
+		case "nest":
+			// put a package-bearing term (Buffer/Package with its own, possibly too large,
+			// PkgLength) where a term starts: the inner package may reach beyond the outer one
+			inner := []byte{rapid.SampledFrom([]byte{0x11, 0x11, 0x12, 0xa0, 0xa2}).Draw(t, "nestop"), byte(rapid.IntRange(1, 12).Draw(t, "nestlen")), 0x0a, byte(rapid.IntRange(0, 4).Draw(t, "nestsize"))}
+			b = append(b[:pos], append(inner, b[pos:]...)...)
 		}
 		kinds = append(kinds, k)
 	}
